@@ -50,6 +50,19 @@ class SubError(Exception):
   """Raised by a sub-task whose `ret` is {"raise": ...}."""
 
 
+class _FalsySubError(SubError):
+  """The same exception in a flavour whose truth value is False (an exception class that defines __len__ / __bool__, like an
+  IncompleteRead carrying zero bytes): delivery must not depend on the truth value of the exception object."""
+  def __bool__(self):
+    return False
+
+  def __len__(self):
+    return 0
+
+
+_FalsySubError.__name__ = "SubError"        # to the model it IS the sub-task's exception
+
+
 class HBase(BaseException):
   """A harness-private BaseException that is not an Exception (what sys.exit() / an application's own
   BaseException subclass looks like to the scheduler) -- raised by `raise`/sub-task ret/timer rets with "base"."""
@@ -402,7 +415,7 @@ class Run(object):
             return
           if "raise" in ret:
             self._end(tid, step, "raise")
-            raise (HBase if ret.get("base") else SubError)("sub:" + tid)
+            raise (HBase if ret.get("base") else _FalsySubError if ret.get("falsy") else SubError)("sub:" + tid)
           yv = ["ret", tid] if ret.get("v") == "token" else ret.get("v")
           self._end(tid, step, "ret")
           final = True
@@ -449,7 +462,7 @@ class Run(object):
           return None
         if "raise" in ret:
           self._end(tid, 0, "raise")
-          raise (HBase if ret.get("base") else SubError)("sub:" + tid)
+          raise (HBase if ret.get("base") else _FalsySubError if ret.get("falsy") else SubError)("sub:" + tid)
         self._end(tid, 0, "ret")
         return ["ret", tid] if ret.get("v") == "token" else ret.get("v")
       finally:
